@@ -76,6 +76,17 @@ theorem cutFrames_framed {p : Prog} {F : List Int} (hF : Framed p F) :
 
 /-! ## composing deliveries -/
 
+theorem map_eq_flatMap_singleton {α β : Type} (f : α → β) (l : List α) : l.map f = l.flatMap (fun x => [f x]) := by
+  induction l with
+  | nil => rfl
+  | cons x xs ih => simp [ih]
+
+theorem flatMap_singleton_id {α : Type} (l : List α) : l.flatMap (fun x => [x]) = l := by
+  induction l with
+  | nil => rfl
+  | cons x xs ih => simp [ih]
+
+
 theorem Delivers.of_reach {X : Setup} {b : Nat} {T S S' : List Int} {C0 : List (Nat × Nat × Nat)} {rs : List St}
     {s s' : VMState} (h : Reach X.p X.env s s') (h2 : Delivers X b T S S' C0 rs s') : Delivers X b T S S' C0 rs s := by
   cases rs with
